@@ -23,8 +23,8 @@ type c10Case struct {
 }
 
 var (
-	c10Regs       = []string{"plain", "plain+1rotated", "plain+2rotated", "public", "public-with-secret-hash", "confidential-empty-hash", "oidc-basic", "oidc-post", "oidc-none", "oidc-private_key_jwt", "oidc-client_secret_jwt", "oidc-unset", "special-chars"}
-	c10Transports = []string{"basic", "post", "both", "id-only", "nothing", "basic-malformed", "basic-unencoded", "assertion", "assertion-wrong-key", "assertion+basic"}
+	c10Regs       = []string{"plain", "plain+1rotated", "plain+2rotated", "plain+empty-rotated", "public", "public-with-secret-hash", "confidential-empty-hash", "oidc-basic", "oidc-post", "oidc-none", "oidc-private_key_jwt", "oidc-client_secret_jwt", "oidc-unset", "special-chars"}
+	c10Transports = []string{"basic", "post", "both", "id-only", "nothing", "basic-malformed", "basic-unencoded", "assertion", "assertion-wrong-key", "assertion+basic", "basic-id-only+body-secret"}
 	c10Secrets    = []string{"current", "rotated1", "rotated2", "wrong", "empty", "other-clients", "current-prefix", "current+suffix"}
 	c10Endpoints  = []string{"token/client_credentials", "token/password", "token/refresh_token", "token/authorization_code", "token/device_code", "token/jwt-bearer", "revoke", "par", "device_auth"}
 )
@@ -48,6 +48,9 @@ func c10Setup(c c10Case) (*World, fosite.Client, map[string]string) {
 		base.RotatedSecrets = [][]byte{w.hashSecret(secrets["rotated1"])}
 	case "plain+2rotated":
 		base.RotatedSecrets = [][]byte{w.hashSecret(secrets["rotated1"]), w.hashSecret(secrets["rotated2"])}
+	case "plain+empty-rotated":
+		// a rotated-secrets list holding only empty slots (as a careless admin API may leave behind)
+		base.RotatedSecrets = [][]byte{{}, nil}
 	case "public":
 		base.Public, base.Secret = true, nil
 	case "public-with-secret-hash":
@@ -119,6 +122,11 @@ func c10Auth(w *World, c c10Case, id string, secrets map[string]string) Auth {
 		return Auth{Mode: "omit", Extra: url.Values{"client_assertion_type": {"urn:ietf:params:oauth:client-assertion-type:jwt-bearer"}, "client_assertion": {c10Assertion(w, id, "ec256b", "jti-attempt")}}}
 	case "assertion-wrong-key":
 		return Auth{Mode: "omit", Extra: url.Values{"client_assertion_type": {"urn:ietf:params:oauth:client-assertion-type:jwt-bearer"}, "client_assertion": {c10Assertion(w, id, "ec256a", "jti-attempt")}}}
+	case "basic-id-only+body-secret":
+		// the id travels in a Basic header with an empty password, the secret in the body, no body client_id
+		a := BasicAuth(id, "")
+		a.Extra = url.Values{"client_secret": {sec}}
+		return a
 	case "assertion+basic":
 		a := BasicAuth(id, sec)
 		a.Extra = url.Values{"client_assertion_type": {"urn:ietf:params:oauth:client-assertion-type:jwt-bearer"}, "client_assertion": {c10Assertion(w, id, "ec256a", "jti-attempt")}}
@@ -133,6 +141,19 @@ func c10RefAuth(c c10Case) (ok bool, dc bool) {
 	public := c.Reg == "public" || c.Reg == "public-with-secret-hash" || c.Reg == "oidc-none"
 	viaBasic := c.Transport == "basic" || c.Transport == "both" || c.Transport == "basic-unencoded" || c.Transport == "assertion+basic"
 	viaPost := c.Transport == "post"
+	if c.Transport == "basic-id-only+body-secret" {
+		// split credentials. The Basic password is empty, so the header proves nothing. For registrations whose method
+		// does not permit a body secret (or no secret at all) processing the request is a violation; where post is a
+		// permitted transport the split form is not pinned
+		switch c.Reg {
+		case "oidc-basic", "oidc-unset", "oidc-private_key_jwt", "oidc-client_secret_jwt", "confidential-empty-hash":
+			return false, false
+		}
+		if c.Secret == "empty" && !(c.Reg == "public" || c.Reg == "public-with-secret-hash") {
+			return false, c.Reg == "oidc-none"
+		}
+		return false, true
+	}
 	if c.Transport == "basic-unencoded" && c.Reg == "special-chars" {
 		return false, true // the header must be form-encoded; what an unencoded special string decodes to is not pinned
 	}
